@@ -1,11 +1,11 @@
 SPECIFICATION MCSpec
 VIEW view
-INVARIANTS DryNoChange ThrottleOk NotBlocked ReadSameMC
+INVARIANTS DryNoChange ThrottleOk NotBlocked
 CONSTANTS
  Gated = {"tag.delete", "m:delete", "image.copy", "image.copy+dt", "image.copy+fr"}
  RelOnErr = {"image.config", "m:config", "image.importTar", "image.exportTar", "image.copy", "image.copy+dt", "image.copy+fr"}
  StubReads = {}
  NS = 1
- MaxLen = 3
+ MaxLen = 2
  Pars = {0}
- Alphabet = "full"
+ Alphabet = "core"
